@@ -46,6 +46,10 @@ pub fn tracker_child(args: &Args) {
             aquatic_common::access_list::AccessListMode::Deny
         };
     }
+    if args.extra.get("proxy").map(|v| v == "1").unwrap_or(false) {
+        c.network.runs_behind_reverse_proxy = true;
+        c.network.reverse_proxy_ip_header_name = "X-Forwarded-For".into();
+    }
     if let Err(e) = aquatic_http::run(c) {
         eprintln!("tracker child: {:#}", e);
         std::process::exit(3);
@@ -65,12 +69,19 @@ fn free_port() -> u16 {
 }
 
 fn start_child(sw: usize, ww: usize, ka: bool, max_scrape: usize, max_peers: usize, acl: Option<(u8, String)>) -> (Child, u16) {
+    start_child_proxy(sw, ww, ka, max_scrape, max_peers, acl, false)
+}
+
+fn start_child_proxy(sw: usize, ww: usize, ka: bool, max_scrape: usize, max_peers: usize, acl: Option<(u8, String)>, proxy: bool) -> (Child, u16) {
     for _ in 0..4 {
         let port = free_port();
         let mut cmd = std::process::Command::new(std::env::current_exe().unwrap());
         cmd.arg("http-tracker");
         if let Some((mode, path)) = &acl {
             cmd.args(["--acl-mode", &mode.to_string(), "--acl-path", path]);
+        }
+        if proxy {
+            cmd.args(["--proxy", "1"]);
         }
         let child = cmd
             .args([
@@ -102,7 +113,7 @@ fn start_child(sw: usize, ww: usize, ka: bool, max_scrape: usize, max_peers: usi
                     if let Ok(mut s) = TcpStream::connect(("127.0.0.1", port)) {
                         s.set_read_timeout(Some(Duration::from_secs(10))).unwrap();
                         let q: Vec<String> = (0..3u8).map(|j| format!("info_hash={}", pct(&[j + 250, i as u8, 9, 9, 9, 9, 9, 9, 9, 9, 9, 9, 9, 9, 9, 9, 9, 9, 9, 9]))).collect();
-                        let text = format!("GET /scrape?{} HTTP/1.1\r\nHost: t\r\n\r\n", q.join("&"));
+                        let text = format!("GET /scrape?{} HTTP/1.1\r\nHost: t\r\n{}\r\n", q.join("&"), if proxy { "X-Forwarded-For: 198.51.100.1\r\n" } else { "" });
                         let (raw, _) = exchange(&mut s, text.as_bytes(), &[], true);
                         if raw.starts_with(b"HTTP/1.1 200") {
                             ok += 1;
@@ -248,6 +259,18 @@ pub fn run(args: &Args) {
         let ka = rng.chance(3, 4);
         let max_scrape = *rng.pick(&[1usize, 2, 3, 100]);
         let max_peers = *rng.pick(&[1usize, 2, 3, 50]);
+        // a third of the cases: the tracker runs behind a reverse proxy; every request names the
+        // peer's address in X-Forwarded-For, a different one from request to request on the same
+        // (keep-alive) connection; the address family of a request is that of the named address
+        let proxy = args.extra.get("proxy").map(|v| v == "1").unwrap_or(false) || rng.chance(1, 3);
+        let fwd_pool: [(&str, IpAddr); 6] = [
+            ("10.1.2.3", "10.1.2.3".parse().unwrap()),
+            ("10.1.2.4", "10.1.2.4".parse().unwrap()),
+            ("192.0.2.77", "192.0.2.77".parse().unwrap()),
+            ("::ffff:10.1.2.4", "10.1.2.4".parse().unwrap()),
+            ("2001:db8::5", "2001:db8::5".parse().unwrap()),
+            ("2001:db8::6", "2001:db8::6".parse().unwrap()),
+        ];
         // torrents: first bytes 0..5 so that they spread over up to 3 swarm workers
         let pool: Vec<[u8; 20]> = (0..6u8)
             .map(|i| {
@@ -281,7 +304,7 @@ pub fn run(args: &Args) {
             match acl_mode { 0 => "AclOff", 1 => "AclAllow", _ => "AclDeny" },
             if acl_mode == 0 { "[]".to_string() } else { cq::list(&[cq::id20(&pool[0]), cq::id20(&pool[3])]) }
         );
-        let (_child, port) = start_child(sw, ww, ka, max_scrape, max_peers, acl);
+        let (_child, port) = start_child_proxy(sw, ww, ka, max_scrape, max_peers, acl, proxy);
         let child_pid = _child.0.id() as i32;
         let mut conns: Vec<Conn> = vec![
             Conn { stream: None, v6: false },
@@ -292,7 +315,7 @@ pub fn run(args: &Args) {
         for c in conns.iter_mut() {
             c.stream = Some(connect(c.v6, port));
         }
-        let announce_text = |rng: &mut Prng, hash: &[u8; 20], aport: u16| -> (Vec<u8>, u8, u64, Option<usize>) {
+        let announce_text = |rng: &mut Prng, hash: &[u8; 20], aport: u16, hdr: &str| -> (Vec<u8>, u8, u64, Option<usize>) {
             let ev = rng.below(4) as u8;
             let left = *rng.pick(&[0u64, 0, 1, 5000]);
             let want = *rng.pick(&[None, Some(0usize), Some(1), Some(2), Some(5), Some(60)]);
@@ -318,14 +341,17 @@ pub fn run(args: &Args) {
                 let j = rng.below(i as u64 + 1) as usize;
                 params.swap(i, j);
             }
-            (format!("GET /announce?{} HTTP/1.1\r\nHost: t\r\n\r\n", params.join("&")).into_bytes(), ev, left, want)
+            (format!("GET /announce?{} HTTP/1.1\r\nHost: t\r\n{}\r\n", params.join("&"), hdr).into_bytes(), ev, left, want)
         };
-        let hop_announce = |v6: bool, hash: &[u8; 20], aport: u16, ev: u8, left: u64, want: Option<usize>| -> String {
+        let hop_announce = |src: Option<IpAddr>, v6: bool, hash: &[u8; 20], aport: u16, ev: u8, left: u64, want: Option<usize>| -> String {
             format!(
                 "HAnnounce {} {} {} {} {} 0 {} 0 0",
-                cq::b(v6),
+                cq::b(src.map(|a| a.is_ipv6()).unwrap_or(v6)),
                 cq::id20(hash),
-                key_num(v6, aport),
+                match src {
+                    Some(a) => crate::http_swarm::key_num(a, aport),
+                    None => key_num(v6, aport),
+                },
                 cq::b(ev == 3),
                 cq::n(left),
                 match want {
@@ -374,6 +400,10 @@ pub fn run(args: &Args) {
                 continue;
             }
             let kind = rng.below(12);
+            let fwd: Option<(&str, IpAddr)> = if proxy { Some(*rng.pick(&fwd_pool)) } else { None };
+            let hdr = fwd.map(|(t, _)| format!("X-Forwarded-For: {}\r\n", t)).unwrap_or_default();
+            let src = fwd.map(|(_, a)| a);
+            let fam6 = src.map(|a| a.is_ipv6()).unwrap_or(v6);
             let mut one = |rng: &mut Prng, conns: &mut Vec<Conn>, ci: usize, text: Vec<u8>, op: Option<String>, name: &'static str| -> String {
                 *kinds.entry(name).or_insert(0) += 1;
                 let cuts = cuts_for(rng, text.len());
@@ -398,8 +428,8 @@ pub fn run(args: &Args) {
                 0..=5 => {
                     let hash = *rng.pick(&pool);
                     let aport = *rng.pick(&[6881u16, 6882, 6883, 6884, 6885, 6886, 6887]);
-                    let (text, ev, left, want) = announce_text(rng, &hash, aport);
-                    let op = hop_announce(v6, &hash, aport, ev, left, want);
+                    let (text, ev, left, want) = announce_text(rng, &hash, aport, &hdr);
+                    let op = hop_announce(src, v6, &hash, aport, ev, left, want);
                     let t = one(rng, &mut conns, ci, text, Some(op), "announce");
                     items.push(t);
                 }
@@ -417,8 +447,8 @@ pub fn run(args: &Args) {
                         })
                         .collect();
                     let q: Vec<String> = hs.iter().map(|h| format!("info_hash={}", pct(h))).collect();
-                    let text = format!("GET /scrape?{} HTTP/1.1\r\nHost: t\r\n\r\n", q.join("&")).into_bytes();
-                    let op = format!("HScrape {} {}", cq::b(v6), cq::list(&hs.iter().map(cq::id20).collect::<Vec<_>>()));
+                    let text = format!("GET /scrape?{} HTTP/1.1\r\nHost: t\r\n{}\r\n", q.join("&"), hdr).into_bytes();
+                    let op = format!("HScrape {} {}", cq::b(fam6), cq::list(&hs.iter().map(cq::id20).collect::<Vec<_>>()));
                     let t = one(rng, &mut conns, ci, text, Some(op), "scrape");
                     items.push(t);
                 }
@@ -455,8 +485,10 @@ pub fn run(args: &Args) {
                         }
                         let hash = pool[i];
                         let aport = 7000 + rng.below(4) as u16;
-                        let (text, ev, left, want) = announce_text(rng, &hash, aport);
-                        plan.push((i, text, hop_announce(c.v6, &hash, aport, ev, left, want)));
+                        let bf: Option<(&str, IpAddr)> = if proxy { Some(*rng.pick(&fwd_pool)) } else { None };
+                        let bh = bf.map(|(t, _)| format!("X-Forwarded-For: {}\r\n", t)).unwrap_or_default();
+                        let (text, ev, left, want) = announce_text(rng, &hash, aport, &bh);
+                        plan.push((i, text, hop_announce(bf.map(|(_, a)| a), c.v6, &hash, aport, ev, left, want)));
                     }
                     *kinds.entry("burst").or_insert(0) += 1;
                     let mut handles = Vec::new();
@@ -493,7 +525,8 @@ pub fn run(args: &Args) {
         for (ci, v6) in [(0usize, false), (3usize, true)] {
             for h in pool.iter() {
                 let mut stream = connect(v6, port);
-                let text = format!("GET /scrape?info_hash={} HTTP/1.1\r\nHost: t\r\n\r\n", pct(h)).into_bytes();
+                let ah = if proxy { format!("X-Forwarded-For: {}\r\n", if v6 { "2001:db8::99" } else { "198.51.100.9" }) } else { String::new() };
+                let text = format!("GET /scrape?info_hash={} HTTP/1.1\r\nHost: t\r\n{}\r\n", pct(h), ah).into_bytes();
                 let (raw, closed) = exchange(&mut stream, &text, &[], true);
                 let reply = if raw.is_empty() {
                     "None".to_string()
